@@ -57,10 +57,15 @@ func write(t *sut.Target) prog.Result {
 	var man manifest
 	emit := func(k int, recs []refpq.Val, batches []int, page int, codec sut.Codec) {
 		res.Evals++
+		// Whatever the writer produces is "a file written for the struct": it
+		// is kept even when the C01/C02 oracles object (those objections are
+		// reported, but stage 2 still has to cope with the file).
 		file, fails := oracle.Run(t, recs, batches, page, codec, oracle.RoundTrip|oracle.Valid|oracle.NoScramble)
 		if len(fails) > 0 {
 			res.Failures = append(res.Failures, prog.Failure{Class: "base-" + fails[0].Class, Code: fails[0].Code, Msg: fails[0].Msg})
-			return
+			if fails[0].Class == "panic" || fails[0].Class == "write-error" || len(file) < 12 {
+				return
+			}
 		}
 		fn := filepath.Join(dir, fmt.Sprintf("f%d.parquet", k))
 		os.WriteFile(fn, file, 0o644)
